@@ -24,8 +24,13 @@ MANIFEST = dict(
     note='Exploration level: an invariant over extracted artifacts, no transition system. Trusted: the .s parser and call-site extraction (cross-checked: location counter vs. object symbol table, relocation-derived vs. disassembled direct calls), gcc/llvm-mc/llvm-objdump, TLC. Not decided: that the slots named by a map are exactly the live references (only shape: aligned, inside the frame or a stack-passed argument, interior cells disjoint from plain slots); the frame depth at slow-path calls is a linear-scan heuristic (unknown = unchecked bound). arm64 output is never executed.',
     ref='4/C10')
 CODEC = os.path.join(SPEC, "codec")
+# mutation trials: VERIF_C10_DORA=<scratch tree>/target/debug/dora runs the check on another tool chain (no build)
+DORA_BIN = os.environ.get("VERIF_C10_DORA") or DORA
+if DORA_BIN != DORA:
+    progs.DORA = DORA_BIN
 CONFIGS = [("cannon", "x64"), ("boots", "x64"), ("boots", "arm64")]
 COLLECTORS = ["swiper", "copy"]
+CONTROL_BASE = 1000000
 CORE = ["ref/gc-full.dora", "ref/array-element.dora", "ref/write-barrier-trait-object.dora",
         "lambda/lambda-context-gc.dora", "trait/trait-default-body-trait-object.dora", "thread/allocate1.dora",
         "stdlib/hashmap1.dora"]
@@ -51,10 +56,10 @@ def pick_corpus(ctx):
     if ctx.quick:
         extra = r.sample(allf, 8)
     else:
-        extra = []
+        heavy = []
         for pat in STD_HEAVY:
-            extra += sorted(os.path.relpath(p, root) for p in glob.glob(os.path.join(root, pat)))
-        extra += r.sample(allf, 60)
+            heavy += sorted(os.path.relpath(p, root) for p in glob.glob(os.path.join(root, pat)))
+        extra = r.sample(heavy, min(45, len(heavy))) + r.sample(allf, 30)
     for f in extra:
         if f not in chosen and _usable(os.path.join(root, f)):
             chosen.append(f)
@@ -64,7 +69,7 @@ def pick_corpus(ctx):
 
 
 def compile_s(src, out, backend, arch, gc, boots_image=False, timeout=900):
-    cmd = [DORA, "compile"]
+    cmd = [DORA_BIN, "compile"]
     if boots_image:
         cmd.append("--internal-compile-boots")
     if backend == "cannon":
@@ -213,16 +218,19 @@ def make_controls(recs):
     return out
 
 
-def negative_controls(ctx, recs):
+def control_artifacts(recs):
+    """-> (controls, arts): mutated windows of real records as extra artifacts (art >= CONTROL_BASE)."""
     controls = make_controls(recs)
     arts = []
     for k, (nm, inv, w) in enumerate(controls):
         for j, r in enumerate(w):
-            r["art"] = 1000 + k
+            r["art"] = CONTROL_BASE + k
             r["idx"] = j + 1
         arts.append(w)
-    files = sfile.write_chunks(arts, os.path.join(ctx.work, "controls"), chunk=100000)
-    rows = tlc_rows(ctx, files, "negative controls", workers=2)
+    return controls, arts
+
+
+def judge_controls(ctx, controls, rows):
     by_art = collections.defaultdict(set)
     for row in rows:
         for f in row["failed"]:
@@ -230,20 +238,20 @@ def negative_controls(ctx, recs):
             by_art[row["art"]].add(f["inv"] + ":" + f["cls"])
     for k, (nm, inv, w) in enumerate(controls):
         ctx.add("negative_controls")
-        if inv not in by_art.get(1000 + k, set()):
-            raise ToolError(f"negative control {nm}: the specification did not report {inv} (got {sorted(by_art.get(1000 + k, []))})")
-    # the strict invariant stops TLC on the same file
+        got = by_art.get(CONTROL_BASE + k, set())
+        if inv not in got:
+            raise ToolError(f"negative control {nm}: the specification did not report {inv} (got {sorted(got)})")
+    ctx.extra["negative_controls"] = [nm for nm, _, _ in controls]
+
+
+def strict_rejects(ctx, arts):
+    """thorough: the strict invariant (Conforms) makes TLC stop on the controls."""
+    files = sfile.write_chunks(arts, os.path.join(ctx.work, "controls"), chunk=100000)
     r = tlc("StackMaps", cfg="StackMaps_strict.cfg", cwd=CODEC, workers=1, timeout=600, env={"RECS": files[0][0]},
             heap="2g")
     if r.ok or not (r.violation or "").startswith("Invariant Conforms is violated"):
         raise ToolError("strict run on the negative controls was not rejected: %s\n%s" % (r.violation, r.out[-1500:]))
-    ctx.extra["negative_controls"] = [nm for nm, _, _ in controls]
-    # positive control: the unmodified artifact passes the strict invariant
-    pos = copy.deepcopy(recs)
-    for r_ in pos:
-        r_["art"] = 1
-    files = sfile.write_chunks([pos], os.path.join(ctx.work, "positive"), chunk=100000)
-    return files
+    ctx.tlc_stats(r, "strict invariant on the negative controls (rejected)")
 
 
 # ---------------------------------------------------------------------------------------------------------------
@@ -266,6 +274,7 @@ def dynamic_check(ctx, src, expected):
         return job, rr, flags
     with concurrent.futures.ThreadPoolExecutor(max_workers=4) as ex:
         results = list(ex.map(one, jobs))
+    found = []
     for (backend, gc), rr, info in results:
         if rr is None:
             raise ToolError(f"dynamic cross-check {backend}/{gc}: {info}")
@@ -273,13 +282,15 @@ def dynamic_check(ctx, src, expected):
             raise ToolError(f"dynamic cross-check {backend}/{gc}: timed out twice under {info}")
         ctx.add("dynamic_runs")
         if rr.rc != 0 or rr.out != expected:
-            ctx.violation(f"generated program built with {backend} --gc {gc} under DORA_FLAGS='{info}': {rr.ending()}, "
-                          f"stdout {'differs' if rr.out != expected else 'ok'}; stderr: {rr.err[-600:]}",
+            err = rr.err if len(rr.err) < 900 else rr.err[:450] + " ... " + rr.err[-450:]
+            found.append((f"generated program built with {backend} --gc {gc} under DORA_FLAGS='{info}': {rr.ending()}, "
+                          f"stdout {'differs' if rr.out != expected else 'ok'}; stderr: {err}",
                           {"source": src, "backend": backend, "gc": gc, "flags": info, "stdout": rr.out[-2000:],
-                           "expected": expected, "stderr": rr.err[-2000:]},
-                          key=f"dynamic:{backend}:{gc}:{rr.ending()}")
+                           "expected": expected, "stderr": rr.err[-4000:]},
+                          f"dynamic:{backend}:{gc}:{rr.ending()}"))
         else:
             ctx.add("dynamic_runs_clean")
+    return found
 
 
 # ---------------------------------------------------------------------------------------------------------------
@@ -288,7 +299,8 @@ def run(ctx):
     import sys
     sys.path.insert(0, os.path.join(VERIF, "gen"))
     import c10_prog
-    build_repo(boots=True)
+    if DORA_BIN == DORA:
+        build_repo(boots=True)
     src_text, expected = c10_prog.generate(ctx.seed)
     gsrc = os.path.join(ctx.work, f"gen{ctx.seed}.dora")
     open(gsrc, "w").write(src_text)
@@ -309,7 +321,7 @@ def run(ctx):
     dyn_future = dyn_ex.submit(dynamic_check, ctx, gsrc, expected)
     with concurrent.futures.ProcessPoolExecutor(max_workers=min(8, max(2, NCPU // 2))) as ex:
         results = list(ex.map(_job, jobs))
-    log(f"C10: compiled and extracted in {time.time() - t0:.0f}s")
+    log(f"C10: compiled and extracted in {time.time() - t0:.0f}s (dynamic cross-check running beside)")
     arts = []
     info = {}
     per_cfg = {}
@@ -365,15 +377,15 @@ def run(ctx):
 
     # negative + positive controls on the generated program's baseline artifact
     gen_art = next(a for a in arts if info[a[0]["art"]]["job"][0] == "generated" and info[a[0]["art"]]["job"][2] == "cannon")
-    pos_files = negative_controls(ctx, gen_art)
-    r = tlc("StackMaps", cfg="StackMaps_strict.cfg", cwd=CODEC, workers=2, timeout=600, env={"RECS": pos_files[0][0]},
-            heap="2g")
-    strict_ok = r.ok
-    ctx.tlc_stats(r, "strict invariant on the generated program (baseline x64)")
+    controls, control_arts = control_artifacts(gen_art)
+    if not ctx.quick:
+        strict_rejects(ctx, control_arts)
 
-    files = sfile.write_chunks(arts, os.path.join(ctx.work, "recs"), chunk=8000)
+    files = sfile.write_chunks(arts + control_arts, os.path.join(ctx.work, "recs"), chunk=8000)
     t1 = time.time()
-    rows = tlc_rows(ctx, files, "records", workers=min(12, NCPU))
+    rows = tlc_rows(ctx, files, "records + negative controls", workers=min(12, NCPU))
+    judge_controls(ctx, controls, [r for r in rows if r["art"] >= CONTROL_BASE])
+    rows = [r for r in rows if r["art"] < CONTROL_BASE]
     log(f"C10: TLC validated {total_recs} records in {len(files)} runs, {time.time() - t1:.0f}s; rows={len(rows)}")
     ctx.add("traces_validated_against_impl", total_recs)
     ctx.cov["evaluations"] = total_recs
@@ -403,9 +415,11 @@ def run(ctx):
                           {"artifact": res["spath"], "program": src, "backend": backend, "arch": arch, "gc": gc,
                            "invariant": f, "record": rec, "compile": compile_cmd(src, backend, arch, gc, img)},
                           key=key)
-    if not strict_ok and not rows:
-        raise ToolError("strict invariant failed on the generated program but Report printed nothing")
-    dyn_future.result()
+    t2 = time.time()
+    dyn = dyn_future.result()
+    log(f"C10: waited {time.time() - t2:.0f}s more for the dynamic cross-check")
+    for msg, obj, key in dyn:      # reported after the static verdicts (main thread)
+        ctx.violation(msg, obj, key=key)
     dyn_ex.shutdown()
     # samples
     g = gen_art
@@ -442,10 +456,13 @@ def describe_failure(rec, f, recs, idx):
         return f"no gc point at return offset(s) {miss[:8]} (function size {n}, {len(gp)} gc points)"
     if f["inv"] == "ReturnInside":
         return f"return offset(s) {[c['ret'] for c in rec['calls'] if not 0 < c['ret'] < n][:8]} outside (0, {n})"
-    if f["inv"] in ("SlotsOK", "InteriorOK"):
-        bad = [(g["off"], g["slots"], g["interior"], g["frame"]) for g in rec["gcpoints"]
-               if any(s % 8 or 0 <= s < 16 or (s < 0 and g["frame"] >= 0 and s < -g["frame"]) for s in g["slots"]) or g["interior"]]
-        return f"gc point (offset, slots, interior cells, frame bytes): {bad[:2]}"
+    if f["inv"] == "SlotsOK":
+        bad = [(g["off"], [s for s in g["slots"] if s % 8 or 0 <= s < 16 or (s < 0 and g["frame"] >= 0 and s < -g["frame"])],
+                g["frame"]) for g in rec["gcpoints"]]
+        return f"gc points (offset, offending slots, frame bytes): {[b for b in bad if b[1]][:3]}"
+    if f["inv"] == "InteriorOK":
+        bad = [(g["off"], g["slots"], g["interior"], g["frame"]) for g in rec["gcpoints"] if g["interior"]]
+        return f"gc points with interior cells (offset, slots, interior cells, frame bytes): {bad[:2]}"
     if f["inv"] == "Ordered":
         nxt = recs[idx] if idx < len(recs) else None
         return f"range [{rec['start']}, {rec['end']}) and next {nxt and (nxt['name'], nxt['start'], nxt['end'])}"
@@ -461,7 +478,8 @@ def replay(ctx, path):
     if "artifact" not in case:
         log(json.dumps(case)[:3000])
         return
-    build_repo(boots=True)
+    if DORA_BIN == DORA:
+        build_repo(boots=True)
     b, a, g = case["backend"], case["arch"], case["gc"]
     out = os.path.join(ctx.work, "replay")
     spath, msg = compile_s(case["program"], out, b, a, g, "--internal-compile-boots" in case["compile"])
